@@ -30,6 +30,9 @@ THEOREMS = [
     'PbBss.C04.em_gain_invariant',
     'PbBss.C04.em_gain_invariant_max',
     'PbBss.C04.vmfmm_pos_scale',
+    'PbBss.C04.em_fit_congr_obs',
+    'PbBss.C04.em_watson_fit_phase_invariant',
+    'PbBss.C04.em_cacg_fit_phase_invariant',
 ]
 ASSUMPTIONS = [
     'theorems are over the reals/complex numbers; "up to rounding" (and absence of overflow for |c| in [1e-100, 1e100]) is '
